@@ -86,6 +86,18 @@ def rand_orth(rng, n):
     return q * np.sign(np.diag(r))
 
 
+def as_counts(y, spec):
+    """records stored as INTEGER ADC counts (dtype and peak value of the case), otherwise unchanged floats."""
+    if not spec.get("idtype"):
+        return y
+    return np.round(y * (spec["peak"] / np.max(np.abs(y)))).astype(spec["idtype"])
+
+
+def keep_dtype(d):
+    d = np.asarray(d)
+    return np.array(d) if np.issubdtype(d.dtype, np.integer) else np.array(d, dtype=float)
+
+
 def build_case_data(spec):
     """-> dict(single: data | multi: datasets, ref_ind), true relative frequencies."""
     rng = np.random.default_rng(spec["seed"])
@@ -99,7 +111,7 @@ def build_case_data(spec):
     if spec["setup"] == "single":
         y, Phi = synth(rng, spec["N"], spec["l"], fr, xi, spec["noise"], spec["kind"])
         y = y * (spec.get("amp", 1.0) / y.std())   # record rms = amp (realistic small / unit / large amplitudes)
-        return dict(data=y, fr=fr, xi=xi)
+        return dict(data=as_counts(y, spec), fr=fr, xi=xi)
     # multi: one physical structure with n_ref fixed + roving channels, measured in several setups (independent records)
     nref = spec["nref"]
     movs = spec["movs"]
@@ -126,7 +138,7 @@ def build_case_data(spec):
         pos = rng.permutation(n_i)
         d = np.zeros_like(y)
         d[:, pos] = y
-        datasets.append(d)
+        datasets.append(as_counts(d, spec))
         ref_ind.append([int(pos[a]) for a in range(nref)])
     return dict(datasets=datasets, ref_ind=ref_ind, fr=fr, xi=xi)
 
@@ -182,9 +194,9 @@ def run_alg(spec, inp, fs, kf, hold=None, reuse=None, same_setup=False):
             st, a = reuse
         else:
             if spec["setup"] == "single":
-                st = SingleSetup(np.array(inp["data"], dtype=float), fs=fs)
+                st = SingleSetup(keep_dtype(inp["data"]), fs=fs)
             else:
-                st = MultiSetup_PreGER(fs=fs, ref_ind=[list(r) for r in inp["ref_ind"]], datasets=[np.array(d, dtype=float) for d in inp["datasets"]])
+                st = MultiSetup_PreGER(fs=fs, ref_ind=[list(r) for r in inp["ref_ind"]], datasets=[keep_dtype(d) for d in inp["datasets"]])
             a = reuse[1] if reuse is not None else make_alg(alg, P, inp.get("ref_ind") if spec["setup"] == "single" else None)
             st.add_algorithms(a)
         if hold is not None:
@@ -243,6 +255,19 @@ def apply_transform(spec, base_inp, T):
     if t == "fs":
         return inp, T["k"], ident
     if t == "rerun":
+        return inp, 1.0, ident
+    if t in ("asfloat", "igain"):
+        # integer records: the float image of the same counts / an integer gain applied in the record's own integer arithmetic
+        def f(d):
+            if t == "asfloat":
+                return d.astype(float)
+            out = d * d.dtype.type(T["g"])
+            assert out.dtype == d.dtype and np.array_equal(out.astype(float), d.astype(float) * T["g"]), "generator: gain leaves the dtype's range"
+            return out
+        if single:
+            inp["data"] = f(base_inp["data"])
+        else:
+            inp["datasets"] = [f(d) for d in base_inp["datasets"]]
         return inp, 1.0, ident
     if t == "refform":
         # the same reference channels written another way: negative indices (legal NumPy indexing) or the list reversed
@@ -608,9 +633,11 @@ def compare_core(rec, spec, base, got, T, kf, smap):
     fam = family(spec["alg"])
     tier = spec["tier"]
     Tn = T["t"]
-    site = Tn + ("-reuse" if T.get("reuse") and Tn != "rerun" else "") + ("-" + T["form"] if Tn == "refform" else "") + ("-neg" if T.get("neg") else "")
+    site = Tn + ("%+d" % T["g"] if Tn == "igain" else "") + ("-reuse" if T.get("reuse") and Tn != "rerun" else "") + ("-" + T["form"] if Tn == "refform" else "") + ("-neg" if T.get("neg") else "")
     if Tn == "rerun" or (Tn == "refform" and T["form"] in ("negative", "positive")):
         tier = "A"   # the very same computation: identical results whatever the record
+    if T.get("cmp"):
+        tier = T["cmp"]
     Tn = site        # wording of the messages ("fs-reuse" = same algorithm object attached to the second setup)
     P = spec["P"]
     if ("exc" in base) or ("exc" in got):
@@ -658,12 +685,12 @@ def compare_core(rec, spec, base, got, T, kf, smap):
     if fam in ("FDD", "EFDD"):
         # singular values of the spectral matrix are invariant (up to the free level factor)
         cmp_prop(rec, "S_val", Tn, base["S_val"], got["S_val"], site, TOL_B)
-        if T["t"] in ("gain", "fs"):
+        if T["t"] in ("gain", "fs", "igain", "asfloat"):
             cmp_prop(rec, "Sy", Tn, base["Sy"], got["Sy"], site, TOL_B)
         elif spec["setup"] == "single":
             cmp_sy_mapped(rec, Tn, base["Sy"], got["Sy"], smap, site)
     if fam == "pLSCF" and spec["setup"] == "single":
-        if T["t"] in ("gain", "fs"):
+        if T["t"] in ("gain", "fs", "igain", "asfloat"):
             cmp_prop(rec, "Sy", Tn, base["Sy"], got["Sy"], site, TOL_B)
         else:
             cmp_sy_mapped(rec, Tn, base["Sy"], got["Sy"], smap, site)
@@ -683,10 +710,19 @@ def compare_core(rec, spec, base, got, T, kf, smap):
         return
     if len(Fb) == 0:
         return
-    if fam == "FDD" or fam == "EFDD":
-        # peak picking is an argmax over spectral lines: a runner-up within 1e-9 is not judged (cannot be seen from outside;
-        # a different line shows as a frequency off by at least one bin)
-        pass
+    if fam == "EFDD":
+        # a DEGENERATE correlation fit (non-positive frequency or damping: the extrema search landed on ties of the normalised
+        # correlation, decided at rounding level) is not an identified mode: such modes are not judged under non-dyadic changes
+        Xb0, Xg0 = base.get("Xi"), got.get("Xi")
+        if Xb0 is not None and Xg0 is not None and Xb0.shape == Fb.shape and Xg0.shape == Fg.shape:
+            good = (Fb > 0) & (Fg > 0) & (Xb0 > 0) & (Xg0 > 0) & (Xb0 < 1) & (Xg0 < 1)
+            if not good.all():
+                rec.not_judged += int(np.sum(~good))
+                if not good.any():
+                    return
+                base = dict(base, Fn=Fb[good], Xi=Xb0[good], Phi=None if base.get("Phi") is None else base["Phi"][:, good])
+                got = dict(got, Fn=Fg[good], Xi=Xg0[good], Phi=None if got.get("Phi") is None else got["Phi"][:, good])
+                Fb, Fg = base["Fn"], got["Fn"]
     dev = np.max(np.abs(Fg - kf * Fb) / (kf * np.abs(Fb)))
     rec.checked += 1
     if dev > TOL_B:
@@ -772,6 +808,13 @@ def run_case(spec):
             pair = hold.get("pair") if (T.get("reuse") and "exc" not in base) else None
             got = run_alg(spec, inp, fs0 * kf, kf, reuse=pair, same_setup=(T["t"] == "rerun"))
             compare(rec, spec, base, got, T, kf, smap)
+        m_int = hank_method(spec["alg"])
+        if spec["tier"] == "I" and rec.fails and m_int in (spec.get("attrib_int") or []):
+            # the function-level probe has just shown that build_hank itself treats integer records differently for this method:
+            # the class-level consequences are the same finding
+            first = rec.fails[0]
+            rec.fails = [dict(first, key=KEY_INT % m_int, what="%s on an integer record (%s, peak %d counts, %d samples): %s  [%d relations broken; build_hank(method=%r) "
+                              "computes with the record's integer dtype]" % (spec["alg"], spec["idtype"], spec["peak"], spec["N"], first["what"], len(rec.fails), m_int))]
         info = dict(exc=base.get("exc"), mpe_exc=base.get("mpe_exc"), npoles=npoles,
                     nmodes=0 if base.get("Fn") is None else int(np.size(base["Fn"])))
     except Exception:  # noqa: BLE001
@@ -874,6 +917,54 @@ def gen_cases(ctx, tier, per_alg):
                 if ref is not None:
                     spec["transforms"] += [dict(t="perm", seed=int(rng.integers(1, 2**31)), neg=True), dict(t="refform", form="reversed"),
                                            dict(t="refform", form="positive" if v % 4 == 1 else "negative")]
+            cases.append(spec)
+    return cases
+
+
+def gen_int_cases(ctx, per_alg):
+    """Records stored as integer ADC counts (int16 / int32 / int64, peak 2000 or 30000 counts, 5-12 thousand samples), every class
+    variant: the float image of the same counts and integer gains applied in the record's own integer arithmetic (inside the
+    dtype's range) must give the same pole tables and shapes.  x4 commutes exactly with the pipeline (tier-A comparison);
+    x2, x5, x-3 change the rounding (tier-B comparison)."""
+    rng = ctx.np_rng
+    cases = []
+    k = 0
+    for alg in SINGLE_ALGS + MULTI_ALGS:
+        for v in range(per_alg):
+            single = alg in SINGLE_ALGS
+            # scipy.signal.csd promotes int16 input to SINGLE precision (result_type(int16, complex64) = complex64): the spectral classes
+            # then work at ~1e-7 and the float image of the record is reproduced to that accuracy only - int16 is kept for the
+            # time-domain (SSI) classes, the spectral ones get int32 / int64
+            if family(alg) == "SSI":
+                idtype, peak = [("int32", 2000), ("int16", 2000), ("int64", 30000), ("int32", 30000), ("int16", 2000), ("int64", 2000)][k % 6]
+            else:
+                idtype, peak = [("int32", 2000), ("int64", 30000), ("int32", 30000), ("int64", 2000)][k % 4]
+            k += 1
+            nmodes = int(rng.integers(2, 4))
+            spec = dict(id="I-%s-%d" % (alg, v), tier="I", alg=alg, setup="single" if single else "multi", seed=int(rng.integers(1, 2**31)), nmodes=nmodes,
+                        kind="random", idtype=idtype, peak=peak, amp=1.0, fs=float(rng.choice([10.0, 100.0, 256.0])), N=int(rng.choice([5000, 8000, 12000])),
+                        noise=float(rng.choice([0.02, 0.1, 0.3])))
+            if family(alg) in ("FDD", "EFDD"):
+                spec["band"] = (0.15, 0.42)
+            ref = None
+            if single:
+                l = int(rng.integers(3, 7))
+                spec["l"] = l
+                if family(alg) == "SSI" and v % 2 == 1:
+                    ref = [int(x) for x in rng.choice(l, size=int(rng.integers(2, l)), replace=False)]
+                spec["ref_ind"] = ref
+                l_eff, nref_eff = l, (l if ref is None else len(ref))
+            else:
+                spec["nref"] = int(rng.integers(2, 4))
+                spec["movs"] = [int(rng.integers(1, 4)) for _ in range(int(rng.integers(2, 4)))]
+                l_eff, nref_eff = spec["nref"] + min(spec["movs"]), spec["nref"]
+            P = params_for(rng, alg, "I", l_eff, nref_eff, nmodes, v + k)
+            for q in ("DF", "DF2"):
+                P[q] = P[q] * spec["fs"]
+            spec["P"] = P
+            exact2 = "dat" not in alg
+            spec["transforms"] = [dict(t="asfloat", cmp="A"), dict(t="igain", g=4, cmp="A"), dict(t="igain", g=2, cmp="A" if exact2 else "B"),
+                                  dict(t="igain", g=5, cmp="B"), dict(t="igain", g=-3, cmp="B")]
             cases.append(spec)
     return cases
 
@@ -983,7 +1074,9 @@ def model_side(ctx):
                 if len(md) > 1 and md[0] - md[1] <= 1e-9 * md[0]:
                     ctx.not_judged += 1
                     continue
-                if not (np.allclose(r2[2][i], phi[i][p], rtol=0, atol=1e-9) and abs(r2[0][i] - fn[i]) <= 1e-12 * abs(fn[i]) and abs(r2[1][i] - xi[i]) <= 1e-12):
+                def same(a, b, tol):   # degenerate poles (eigenvalue 0 or 1) give inf / NaN frequencies and damping: equal as such
+                    return (np.isnan(a) and np.isnan(b)) or a == b or abs(a - b) <= tol
+                if not (np.allclose(r2[2][i], phi[i][p], rtol=0, atol=1e-9) and same(r2[0][i], fn[i], 1e-12 * abs(fn[i])) and same(r2[1][i], xi[i], 1e-12)):
                     ctx.fail("oracle", "%s: output matrix g*C[p,:] does not give the same fn, xi and the permuted unity-normalised shapes" % site, casef,
                              key="C08:%s:gain-perm" % site)
                     break
@@ -1061,6 +1154,60 @@ def model_side(ctx):
                 ctx.fail("correspondence", "frequency grid of FDD (%s) differs from the model grid" % case["method_SD"], case, key="C08:grid:%s" % case["method_SD"])
 
 
+KEY_INT = "C08:build_hank:%s:integer-record-arithmetic"
+
+
+def hank_method(alg):
+    if not alg.startswith("SSI"):
+        return None
+    return "dat" if alg.startswith("SSIdat") else "cov_" + alg.split("_")[-1]
+
+
+def probe_int(ctx):
+    """Function-level form of the integer-record relation: ssi.build_hank on a record stored as integer counts must equal
+    build_hank on its float image (and scale with an integer gain).  Returns the methods for which it does not."""
+    from pyoma2.functions import ssi
+
+    bad = []
+    rng = np.random.default_rng(12345)
+    # corpus first: the minimised failing records of the repaired defect (corpus/C08/integer_records.json)
+    recs = []
+    for path in sorted(glob.glob(os.path.join(VERIF, "corpus", "C08", "*.json"))):
+        for r_ in json.load(open(path)).get("build_hank_records", []):
+            recs.append((r_["dtype"], np.array(r_["Y"], dtype=r_["dtype"]), int(r_["br"])))
+    for dt_, peak, N in (("int16", 2000, 6000), ("int32", 2000, 12000), ("int32", 30000, 6000), ("int64", 30000, 8000)):
+        y = rng.standard_normal((3, N))
+        recs.append((dt_, np.round(y * peak / np.abs(y).max()).astype(dt_), 3))
+    for method in ("cov_mm", "cov_R", "dat"):
+        for dt_, y, br in recs:
+            yr = y[:2] if y.shape[0] > 2 else y
+            case = dict(kind="build_hank-integer-record", method=method, dtype=dt_, br=br, shape=list(y.shape), peak=int(np.abs(y).max()),
+                        Y=y.tolist() if y.shape[1] <= 16 else "standard_normal(seed 12345) scaled to the peak and rounded")
+            ctx.count(case)
+            Hf = ssi.build_hank(y.astype(float), yr.astype(float), br, method)[0]
+            what = None
+            for g in (1, 2, -3):
+                yi, yri = y * y.dtype.type(g), yr * yr.dtype.type(g)
+                if not np.array_equal(yi.astype(float), y.astype(float) * g):
+                    continue  # outside the dtype's range
+                Hi = ssi.build_hank(yi, yri, br, method)[0]
+                want = Hf * (abs(g) if method == "dat" else g * g)
+                cmpH = np.abs(Hi) if method == "dat" else Hi   # the QR factor is fixed up to the sign of its rows
+                wantc = np.abs(want) if method == "dat" else want
+                dev = float(np.max(np.abs(cmpH - wantc)) / np.max(np.abs(wantc)))
+                if not dev <= 1e-9:
+                    what = "gain %+d in %s arithmetic: Hankel matrix deviates by %.3g (relative) from %s x the matrix of the float image" % (
+                        g, dt_, dev, "|g|" if method == "dat" else "g^2")
+                    break
+            if what:
+                if method not in bad:
+                    bad.append(method)
+                ctx.fail("oracle", "ssi.build_hank(method=%r) on a record stored as %s counts (peak %d, %d samples): %s - integer np.dot accumulates and "
+                         "wraps in the record's dtype" % (method, dt_, case["peak"], y.shape[1], what), case, key=KEY_INT % method)
+                break
+    return bad
+
+
 def probe_cor(ctx):
     """Function-level form of the repaired defect (corpus): plscf.ac2mp_poly(A, C, dt/k, 'cor', nxseg) must give k*fn, the same
     xi and the same shapes as at dt.  Returns True when it does not AND the outputs are exactly those of the mis-scaled window
@@ -1100,6 +1247,9 @@ def run(ctx):
         "oracle contracts used by the transport theorems: numpy.linalg.svd (H = U S V^T, U^T U = I, V^T V = I), pinv / inv as left inverses, "
         "numpy.linalg.solve, scipy.linalg.eig, numpy.log (left uninterpreted: the dt statement is about the division)",
         "the spectral estimators are bilinear forms in the data (C13's model; here only the generic bilinear-form lemmas C08_bil_* are proved)",
+        "integer-stored records: scipy.signal.csd computes int16 input in single precision, so the spectral classes are exercised with int32 / int64 "
+        "counts only (int16 for the SSI classes); gains x2, x5, x-3 in integer arithmetic are compared by multiset matching at 1e-6, x4 and the float "
+        "image element-wise at 1e-12",
         "orthogonal mixing is exercised with MPC/MPD limits that cannot bite: these two hard criteria measure per-channel phase scatter and are, by their "
         "definition, invariant under gain, permutation and time unit but not under rotations of the channel space",
     ]
@@ -1110,10 +1260,12 @@ def run(ctx):
         for s in c["cases"] if "cases" in c else [c]:
             corpus.append(s)
     attrib = probe_cor(ctx)
+    attrib_int = probe_int(ctx)
     model_side(ctx)
-    cases = corpus + expand_mix(gen_cases(ctx, "A", ctx.n(6, 48)) + gen_cases(ctx, "B", ctx.n(6, 48)))
+    cases = corpus + expand_mix(gen_cases(ctx, "A", ctx.n(6, 48)) + gen_cases(ctx, "B", ctx.n(6, 48))) + gen_int_cases(ctx, ctx.n(1, 6))
     for sp in cases:
         sp["attrib_cor"] = bool(attrib)
+        sp["attrib_int"] = list(attrib_int)
     workers = int(os.environ.get("VERIF_C08_WORKERS", "8"))
     mpctx = multiprocessing.get_context("fork")
     with ProcessPoolExecutor(max_workers=workers, mp_context=mpctx) as ex:
